@@ -496,6 +496,47 @@ def check_hist(prop, tier, seed, replay=None):
         if tier == "thorough" and stuck:
             rep.harness("reach probes stuck at zero: %s" % stuck)
 
+        # C10: memcheck pass - the same probe programs with the heap seam handing out blocks WITHOUT filling them, under valgrind:
+        # any branch, address or system call that depends on never-written heap memory is reported, even when no result changed
+        vg_runs = vg_errors = 0
+        if prop == "C10":
+            import concurrent.futures as cf, shutil
+            plain = exes[-1]
+            vdir = os.path.join(b.scratch, "vg")
+            os.makedirs(vdir, exist_ok=True)
+            nvg = 53 if tier == "quick" else 53 * 12
+            subprocess.run([plain, "worker", str(seed ^ 0x7667), "0", str(nvg), tier, vdir, "100000"], env=dict(os.environ, M4SIM_DUMP="1"), stdout=subprocess.DEVNULL)
+            progs = []
+            for i in range(nvg):
+                pth = os.path.join(vdir, "prog-%d.prog" % i)
+                if not os.path.exists(pth):
+                    continue
+                txt = open(pth).read().split("\n")
+                out, seen1 = ["# runner=valgrind"], False
+                for ln in txt:
+                    w = ln.split()
+                    if w and w[0] == "world" and w[1] != "0":
+                        if w[1] != "1":
+                            continue
+                        ln = "world 1 -1 0 %s" % w[4]
+                    if w and w[0] == "prefix" and w[1] != "1":
+                        continue
+                    out.append(ln)
+                q = os.path.join(vdir, "vg-%d.prog" % i)
+                open(q, "w").write("\n".join(out) + "\n")
+                progs.append(q)
+            if shutil.which("valgrind"):
+                with cf.ThreadPoolExecutor(16) as ex:
+                    res = list(ex.map(lambda q: (q, exec_prog(plain, q, timeout=900)), progs))
+                for q, r in res:
+                    vg_runs += 1
+                    if r.get("cls") == "memcheck_error":
+                        vg_errors += 1
+                        vl.append({"prop": "C10", "class": "memcheck_error", "func": r.get("func", "-"), "scen": "valgrind", "file": q, "detail": "memcheck: use of uninitialised heap memory in " + r.get("func", "-")})
+                    elif r.get("cls") not in ("ok", "SKIPPED"):
+                        rep.harness("valgrind pass: unexpected outcome %s for %s" % (r.get("raw"), q))
+            else:
+                print("note: valgrind not found, memcheck pass skipped")
         for exe in exes:
             mine = [v for v in vl if which_exe(exes, v["file"]) == exe]
             if not mine:
@@ -543,6 +584,7 @@ def check_hist(prop, tier, seed, replay=None):
                                    "history prefix calls": probes.get("prefix_calls_executed", 0)},
                 reach_probes=probes, probes_stuck_at_zero=stuck,
                 stride_padding_words_found_nonzero=stride_dirty,
+                memcheck_pass=dict(programs_run_under_valgrind=vg_runs, errors=vg_errors, what="probe programs with one extra world whose heap blocks are handed out unfilled, executed under valgrind memcheck (use of never-written heap memory)"),
                 runs_per_hour=int(len(hashes) / max(wall, 1e-3) * 3600), seeds_per_hour=int(len(hashes) / max(wall, 1e-3) * 3600),
                 simulated_time="not applicable: no clock in this property",
                 run_hash_digest=digest(hashes), variants=[v.describe() for v in vs], source_sha256=b.sha,
